@@ -98,6 +98,9 @@ def gen_script(rng, sw, spec, idx, tier, prop):
                     if rng.random() < 0.5:
                         ops.append(["set_all", "PROBE"])  # the values move while the source is disabled - to a point that is observed later without setting it again
                     ops.append(["read", "cost"])
+                elif not midread and (i + nsrc + len(ops)) % 2 == 0:
+                    # the same move without any read in between (decided without a further draw: the other histories stay as they were)
+                    ops.append(["set_all", "PROBE"])
                 ops.append(["enable", i])
         elif k == "constraint" and sum(1 for o in ops if o[0] in ("constraint", "mconstraint")) < 3:
             ops.append(fitlib.gen_constraint(rng, spec))
